@@ -87,6 +87,16 @@ func ruleNumericOnlyFinite(w *World, r *RuleResult) {
 		// (c) the receiver is a copy (Set) of a finite constant or of an operand tested finite
 		why := ""
 		copied := seenBefore(c, func(in ssa.Instruction) bool {
+			// recv.Form = src.Form with src tested finite
+			if st, ok := in.(*ssa.Store); ok {
+				if fa, ok := st.Addr.(*ssa.FieldAddr); ok && basePtr(fa.X) == recv && w.exprOf(f, st.Addr).Name == "Form" {
+					if src, isForm := formOf(st.Val); isForm && finiteGuard(c.Block(), src) {
+						why = "its Form is copied from " + w.exprOf(f, src).String() + ", whose Form == Finite test dominates the call"
+						return true
+					}
+				}
+				return false
+			}
 			sc, ok := in.(*ssa.Call)
 			if !ok || w.calleeName(sc) != "(*Decimal).Set" || basePtr(sc.Common().Args[0]) != recv {
 				return false
@@ -262,4 +272,410 @@ func joinStrings(s []string) string {
 		out += x
 	}
 	return out
+}
+
+func init() {
+	register(&Rule{ID: "C17.R3", Min: 0,
+		Text: "no silent truncation to a machine word: outside BigInt's own methods every (*BigInt).Uint64()/Int64() call is dominated by the fit test of the same value (IsUint64/IsInt64 true, an innerAsUint64 ok, or for Decimal.Int64 the pair of comparisons with decimalMaxInt64/decimalMinInt64 on the owning Decimal)",
+		Run:  ruleNarrowingGuarded})
+}
+
+func ruleNarrowingGuarded(w *World, r *RuleResult) {
+	for _, fn := range []string{"(*BigInt).Uint64", "(*BigInt).Int64"} {
+		if w.fn(fn) == nil {
+			r.anchorMissing(fn)
+			continue
+		}
+		fit := "(*BigInt).IsUint64"
+		if fn == "(*BigInt).Int64" {
+			fit = "(*BigInt).IsInt64"
+		}
+		for _, c := range w.allCallsTo(fn) {
+			f := c.Parent()
+			if rc := f.Signature.Recv(); rc != nil && w.apdTypeName(rc.Type()) == "BigInt" {
+				continue // BigInt's own methods handle both representations themselves (C16)
+			}
+			key := fmt.Sprintf("%s | %s is guarded by a fit test", w.shortName(f), fn)
+			if n := countKey(r, key); n > 0 {
+				key = fmt.Sprintf("%s #%d", key, n+1)
+			}
+			obj := basePtr(c.Common().Args[0])
+			ok, why := false, ""
+			hiOK, loOK := false, false
+			// the value may be a copy (Set) of the one that was tested
+			objs := map[ssa.Value]bool{obj: true}
+			for _, sc := range callsIn(f) {
+				call, isCall := sc.(*ssa.Call)
+				if !isCall || len(call.Common().Args) != 2 {
+					continue
+				}
+				if n := w.calleeName(call); (n == "(*Decimal).Set" || n == "(*BigInt).Set") && basePtr(call.Common().Args[0]) == obj && call.Block().Dominates(c.Block()) {
+					objs[basePtr(call.Common().Args[1])] = true
+				}
+			}
+			for _, g := range guardsAt(c.Block()) {
+				// IsUint64()/IsInt64() true
+				if gc, isCall := g.Cond.(*ssa.Call); isCall && g.Val && w.calleeName(gc) == fit && objs[basePtr(gc.Common().Args[0])] {
+					ok, why = true, "under "+fit+"() of the same value"
+				}
+				// ok result of innerAsUint64
+				if ex, isEx := g.Cond.(*ssa.Extract); isEx && g.Val {
+					if gc, isCall := ex.Tuple.(*ssa.Call); isCall && w.calleeName(gc) == "(*BigInt).innerAsUint64" && objs[basePtr(gc.Common().Args[0])] {
+						ok, why = true, "under innerAsUint64's ok"
+					}
+				}
+				// Decimal-level bounds: owner.Cmp(decimalMaxInt64) > 0 false, owner.Cmp(decimalMinInt64) < 0 false
+				if bo, isB := g.Cond.(*ssa.BinOp); isB && !g.Val {
+					cc, isCall := bo.X.(*ssa.Call)
+					k, isK := bo.Y.(*ssa.Const)
+					if !isCall || !isK || ci(k) != 0 || w.calleeName(cc) != "(*Decimal).Cmp" || basePtr(cc.Common().Args[0]) != obj {
+						continue
+					}
+					for _, l := range w.newProv(f, nil).roots(cc.Common().Args[1]) {
+						if l.Root.Kind == RGlobalObj && l.Root.Name == "decimalMaxInt64" && bo.Op == token.GTR {
+							hiOK = true
+						}
+						if l.Root.Kind == RGlobalObj && l.Root.Name == "decimalMinInt64" && bo.Op == token.LSS {
+							loOK = true
+						}
+					}
+				}
+			}
+			if fn == "(*BigInt).Int64" && hiOK && loOK {
+				ok, why = true, "after the value was compared with decimalMaxInt64 and decimalMinInt64"
+			}
+			if ok {
+				r.ok(key, w.instrPos(c), why, true)
+			} else {
+				r.bad(key, w.instrPos(c), fmt.Sprintf("%s of %s is taken without a dominating fit test: for a value that does not fit, the low machine word is used silently (not the value, not even its last decimal digits)", fn, w.exprOf(f, c.Common().Args[0]).String()))
+			}
+		}
+	}
+}
+
+func init() {
+	register(&Rule{ID: "C03.R6", Min: 20,
+		Text: "the trap filter consults the caller's trap set: the receiver of every goError call in a Context method is the method's own context, or a WithPrecision copy of it whose Traps field is never stored to (a derived working context with edited traps must not decide which conditions become errors)",
+		Run:  ruleTrapFilterUsesCallerTraps})
+}
+
+func ruleTrapFilterUsesCallerTraps(w *World, r *RuleResult) {
+	if w.fn("(*Context).goError") == nil {
+		r.anchorMissing("(*Context).goError")
+		return
+	}
+	for _, c := range w.allCallsTo("(*Context).goError") {
+		f := c.Parent()
+		rc := f.Signature.Recv()
+		if rc == nil || w.apdTypeName(rc.Type()) != "Context" {
+			continue
+		}
+		key := fmt.Sprintf("%s | goError on the caller's traps", w.shortName(f))
+		if n := countKey(r, key); n > 0 {
+			key = fmt.Sprintf("%s #%d", key, n+1)
+		}
+		base := basePtr(c.Common().Args[0])
+		if base == ssa.Value(f.Params[0]) {
+			r.ok(key, w.instrPos(c), "receiver is the method's own context", false)
+			continue
+		}
+		cp, isCall := base.(*ssa.Call)
+		if !isCall || w.calleeName(cp) != "(*Context).WithPrecision" || basePtr(cp.Common().Args[0]) != ssa.Value(f.Params[0]) {
+			r.bad(key, w.instrPos(c), "flags are turned into an error against the traps of "+w.exprOf(f, c.Common().Args[0]).String()+", which is not the caller's context or a copy of it")
+			continue
+		}
+		var stores []string
+		for _, st := range storesIn(f) {
+			if fa, ok := st.Addr.(*ssa.FieldAddr); ok && basePtr(fa.X) == base && w.exprOf(f, st.Addr).Name == "Traps" {
+				stores = append(stores, w.instrPos(st))
+			}
+		}
+		if len(stores) > 0 {
+			r.bad(key, w.instrPos(c), "flags are turned into an error against a working copy of the context whose Traps were edited at "+joinStrings(stores)+": conditions trapped by the caller can be returned with a nil error")
+		} else {
+			r.ok(key, w.instrPos(c), "receiver is an unedited WithPrecision copy of the caller's context (same Traps)", true)
+		}
+	}
+}
+
+func init() {
+	register(&Rule{ID: "C18.R5", Min: 1,
+		Text: "no exported function hands out a pointer into a value's internal storage: every *math/big.Int result of an exported function is a fresh allocation (new/&local), never the receiver's _inner pointer or the view returned by inner()",
+		Run:  ruleNoInternalPointerEscapes})
+}
+
+func ruleNoInternalPointerEscapes(w *World, r *RuleResult) {
+	n := 0
+	for _, name := range w.Names {
+		f := w.Funcs[name]
+		if f.Object() == nil || !f.Object().Exported() {
+			continue
+		}
+		if rc := f.Signature.Recv(); rc != nil {
+			// methods of unexported types are not API
+			if tn := w.apdTypeName(rc.Type()); tn != "" && !token.IsExported(tn) {
+				continue
+			}
+		}
+		res := f.Signature.Results()
+		for i := 0; i < res.Len(); i++ {
+			if !isPointer(res.At(i).Type()) || !typeIs(res.At(i).Type(), "math/big", "Int") {
+				continue
+			}
+			n++
+			key := fmt.Sprintf("%s | result #%d is a private copy", name, i)
+			p := w.newProv(f, nil)
+			var bad []string
+			for _, b := range f.Blocks {
+				rt, ok := b.Instrs[len(b.Instrs)-1].(*ssa.Return)
+				if !ok || i >= len(rt.Results) {
+					continue
+				}
+				for _, l := range p.roots(rt.Results[i]) {
+					switch l.Root.Kind {
+					case RFresh, RNil:
+					case RAlloc:
+						// a heap allocation made here (new(big.Int)); a stack temporary handed to inner() is a view
+						if a, isA := l.Root.Node.(*ssa.Alloc); isA && a.Heap && !w.allocPassedToInner(f, a) {
+							continue
+						}
+						bad = append(bad, fmt.Sprintf("return at %s may deliver %s", w.instrPos(rt), l.Root.String()))
+					default:
+						bad = append(bad, fmt.Sprintf("return at %s may deliver %s", w.instrPos(rt), l.Root.String()))
+					}
+				}
+			}
+			if len(bad) > 0 {
+				r.bad(key, w.pos(f.Pos()), "the caller receives a pointer into the value's own storage (mutating it changes the value behind the API; concurrent readers race): "+joinStrings(bad))
+			} else {
+				r.ok(key, w.pos(f.Pos()), "every return delivers a fresh allocation", true)
+			}
+		}
+	}
+	if n == 0 {
+		r.ok("package | no exported function returns *big.Int", "", "nothing to check", false)
+	}
+}
+
+// allocPassedToInner: the allocation is used as the scratch header of one of
+// the inner* view helpers (it then points into the receiver's words).
+func (w *World) allocPassedToInner(f *ssa.Function, a *ssa.Alloc) bool {
+	for _, c := range callsIn(f) {
+		n := w.calleeName(c)
+		if n == "(*BigInt).inner" || n == "(*BigInt).innerOrNil" || n == "(*BigInt).innerOrAlias" || n == "(*BigInt).innerOrNilOrAlias" {
+			for _, arg := range c.Common().Args[1:] {
+				if basePtr(arg) == ssa.Value(a) {
+					return true
+				}
+			}
+		}
+	}
+	return false
+}
+
+func init() {
+	register(&Rule{ID: "C15.R4", Min: 1,
+		Text: "adjusted exponents are only compared for non-zero values: the comparison of NumDigits+Exponent of two decimals (NumDigits(0) is 1, so a zero would look like a 1) is reached only on paths whose Sign() tests exclude a zero on either side — in the function itself or, for an unexported helper, at every call site",
+		Run:  ruleAdjustedExponentNeedsNonZero})
+}
+
+func ruleAdjustedExponentNeedsNonZero(w *World, r *RuleResult) {
+	n := 0
+	for _, name := range w.Names {
+		f := w.Funcs[name]
+		for _, b := range f.Blocks {
+			for _, in := range b.Instrs {
+				bo, ok := in.(*ssa.BinOp)
+				if !ok || (bo.Op != token.LSS && bo.Op != token.GTR && bo.Op != token.LEQ && bo.Op != token.GEQ) {
+					continue
+				}
+				dv, okD := w.adjustedExponentOf(f, bo.X)
+				xv, okX := w.adjustedExponentOf(f, bo.Y)
+				if !okD || !okX || dv == xv {
+					continue
+				}
+				n++
+				key := fmt.Sprintf("%s | adjusted-exponent comparison", name)
+				if k := countKey(r, key); k > 0 {
+					key = fmt.Sprintf("%s #%d", key, k+1)
+				}
+				ok2, why := w.nonZeroPairAt(f, b, dv, xv, 0)
+				switch {
+				case ok2:
+					r.ok(key, w.instrPos(bo), why, true)
+				case why == "undecided":
+					r.undecided(key, w.instrPos(bo), "paths could not be enumerated")
+				default:
+					r.bad(key, w.instrPos(bo), "the adjusted exponents of "+w.exprOf(f, dv).String()+" and "+w.exprOf(f, xv).String()+" are compared although one of them may be zero ("+why+"): NumDigits(0) = 1 makes 0 compare like 1×10^exponent, so 0 vs 0.5 orders the wrong way")
+				}
+			}
+		}
+	}
+	if n == 0 {
+		r.ok("package | adjusted-exponent comparisons", "", "no comparison of NumDigits+Exponent found: not decided for this shape", false)
+	}
+}
+
+// adjustedExponentOf: v = NumDigits(p) + conv(p.Exponent) (in either order);
+// returns p.
+func (w *World) adjustedExponentOf(f *ssa.Function, v ssa.Value) (ssa.Value, bool) {
+	var recv ssa.Value
+	hasExp := false
+	e := w.exprOf(f, v)
+	e.walk(func(x *Expr) bool {
+		if x.Op == "call" && x.Name == "(*Decimal).NumDigits" && len(x.Args) == 1 && x.Args[0].V != nil {
+			recv = basePtr(x.Args[0].V)
+		}
+		if x.Op == "field" && x.Name == "Exponent" {
+			hasExp = true
+		}
+		return true
+	})
+	if recv == nil || !hasExp {
+		return nil, false
+	}
+	return recv, true
+}
+
+// nonZeroPairAt: on every path from f's entry to block b, the decisions on
+// Sign() of dv and xv (evaluated over {-1,0,1}²) leave no pair with a zero
+// component. For unexported f with both values parameters, the question is
+// otherwise asked at every call site.
+func (w *World) nonZeroPairAt(f *ssa.Function, b *ssa.BasicBlock, dv, xv ssa.Value, depth int) (bool, string) {
+	paths, ok := enumPaths(f, 50000)
+	if !ok {
+		return false, "undecided"
+	}
+	signOf := func(v ssa.Value) int { // 0: Sign(dv), 1: Sign(xv), -1: other
+		c, isC := v.(*ssa.Call)
+		if !isC || w.calleeName(c) != "(*Decimal).Sign" {
+			return -1
+		}
+		switch basePtr(c.Common().Args[0]) {
+		case dv:
+			return 0
+		case xv:
+			return 1
+		}
+		return -1
+	}
+	type pair [2]int64
+	union := map[pair]bool{}
+	reached := false
+	for _, p := range paths {
+		idx := -1
+		for i, pb := range p.Blocks {
+			if pb == b {
+				idx = i
+				break
+			}
+		}
+		if idx < 0 {
+			continue
+		}
+		reached = true
+		before := map[*ssa.BasicBlock]bool{}
+		for _, pb := range p.Blocks[:idx] {
+			before[pb] = true
+		}
+		for _, ds := range []int64{-1, 0, 1} {
+			for _, xs := range []int64{-1, 0, 1} {
+				feasible := true
+				for _, d := range p.Decisions {
+					if d.At == nil || !before[d.At.Block()] {
+						continue
+					}
+					bo, isB := d.Cond.(*ssa.BinOp)
+					if !isB {
+						continue
+					}
+					val := func(v ssa.Value) (int64, bool) {
+						if k, isK := v.(*ssa.Const); isK && k.Value != nil {
+							return ci(k), true
+						}
+						switch signOf(v) {
+						case 0:
+							return ds, true
+						case 1:
+							return xs, true
+						}
+						return 0, false
+					}
+					l, okL := val(bo.X)
+					rr, okR := val(bo.Y)
+					if !okL || !okR {
+						continue
+					}
+					var res bool
+					switch bo.Op {
+					case token.LSS:
+						res = l < rr
+					case token.GTR:
+						res = l > rr
+					case token.LEQ:
+						res = l <= rr
+					case token.GEQ:
+						res = l >= rr
+					case token.EQL:
+						res = l == rr
+					case token.NEQ:
+						res = l != rr
+					default:
+						continue
+					}
+					if res != d.Val {
+						feasible = false
+						break
+					}
+				}
+				if feasible {
+					union[pair{ds, xs}] = true
+				}
+			}
+		}
+	}
+	if !reached {
+		return true, "the comparison is not reachable"
+	}
+	zero := false
+	for pr := range union {
+		if pr[0] == 0 || pr[1] == 0 {
+			zero = true
+		}
+	}
+	if !zero {
+		return true, "the Sign() tests on every path to it leave only non-zero operands of equal sign"
+	}
+	// ask the callers
+	pd, isPD := dv.(*ssa.Parameter)
+	px, isPX := xv.(*ssa.Parameter)
+	if !isPD || !isPX || depth > 3 || f.Object() == nil || f.Object().Exported() {
+		return false, "no Sign() test excludes zero on some path"
+	}
+	di, xi := -1, -1
+	for i, p := range f.Params {
+		if p == pd {
+			di = i
+		}
+		if p == px {
+			xi = i
+		}
+	}
+	callers := w.callersOf(f)
+	if len(callers) == 0 || di < 0 || xi < 0 {
+		return false, "no Sign() test excludes zero on some path"
+	}
+	for _, c := range callers {
+		args := c.Common().Args
+		if c.Common().IsInvoke() || len(args) != len(f.Params) {
+			return false, "unresolved call site"
+		}
+		if ok, why := w.nonZeroPairAt(c.Parent(), c.Block(), basePtr(args[di]), basePtr(args[xi]), depth+1); !ok {
+			if why == "undecided" {
+				return false, why
+			}
+			return false, fmt.Sprintf("called from %s at %s where %s", w.shortName(c.Parent()), w.instrPos(c), why)
+		}
+	}
+	return true, "every call site reaches it only with non-zero operands of equal sign"
 }
